@@ -48,7 +48,7 @@ def render(s):
     if s["other"]:
         defs.append(f"#[derive(Clone)] pub struct O{g}(pub {fty});")
     getl = "::dxrt::Tm::s(&self.0)" if generic else "self.0.0.clone()"
-    getr = "::dxrt::Tm::s(&rhs.0)" if generic else "rhs.0.0.clone()"
+    getr = "::dxrt::Tm::s(&uo.0)" if generic else "uo.0.0.clone()"
     mkt = (lambda e: f"<T as ::dxrt::Tm>::mk({e})") if generic else (lambda e: f"{TERM}({e})")
     lhs_ty = f"&{A}" if s["lref"] else A
     rhs_ty = f"&{B}" if s["rref"] else B
@@ -65,11 +65,11 @@ def render(s):
         impl = (f"#[::derive_ex::derive_ex({reqs})]\n"
                 f"impl{g} ::core::ops::{op}{targ} for {lhs_ty} {wh} {{\n"
                 f"    type Output = {out_ty};\n"
-                f"    fn {fn}(self, rhs: {rhs_ty}) -> {A} {{ let l = {getl}; let r = {getr}; {log} A({bin_val}) }}\n}}")
+                f"    fn {fn}(self, uo: {rhs_ty}) -> {A} {{ let l = {getl}; let r = {getr}; {log} A({bin_val}) }}\n}}")
     else:
         impl = (f"#[::derive_ex::derive_ex({reqs})]\n"
                 f"impl{g} ::core::ops::{op}Assign<{rhs_ty}> for {A} {wh} {{\n"
-                f"    fn {fn}_assign(&mut self, rhs: {rhs_ty}) {{ let l = {getl}; let r = {getr}; {log} self.0 = {asg_val}; }}\n}}")
+                f"    fn {fn}_assign(&mut self, uo: {rhs_ty}) {{ let l = {getl}; let r = {getr}; {log} self.0 = {asg_val}; }}\n}}")
     mk_a = f"A({TERM}::new(\"a\"))"
     mk_b = (f"O({TERM}::new(\"b\"))" if s["other"] else f"A({TERM}::new(\"b\"))")
     def sh(x):
